@@ -8,8 +8,8 @@
    (resolved = under the names most recently announced, announced_only = only where announced). *)
 From Coq Require Import List NArith Bool.
 From Mdns Require Import Bytes Rec ParamsRegistry Names WireOut Registry RegistryDaemon RegistrySpec
-     RegistryParamsPinned RegistryProofs RegistryDaemonProofs RegistryLiftProofs RegistryHistoryProofs RegistryWitnesses
-     RegistryWitnessProofs.
+     RegistryTrace RegistryParamsPinned RegistryProofs RegistryDaemonProofs RegistryLiftProofs RegistryHistoryProofs
+     RegistrySilenceProofs RegistryWitnesses RegistryWitnessProofs.
 Import ListNotations.
 Open Scope N_scope.
 
@@ -181,13 +181,62 @@ Theorem C09_registry_forgets_unregistered_service_refuted :
   self9 w_unreg_probing_ifs w_unreg_probing_its = [] /\ self7 w_unreg_probing_ifs w_unreg_probing_its = [].
 Proof. exact w_unreg_probing_refutes. Qed.
 
-(* NOT proved over histories (partial): "no live response after the unregister carries a record of
-   that service".  Proved per step for every state: no answer without an announced service
-   (C09_no_answer_without_announced_service), a pending second announcement of an absent service
-   does nothing (C09_no_reannouncement), a direct answer is built from a registered service whose
-   current name is asked for (C08_direct_answer_current_name); the queue holds nothing of the
-   service but the goodbye repeat (C09_saved_repeats_are_goodbyes_all_histories, C09_queue_growth).
-   The clause is executed as chk_C09 code 3 on every generated history and on the model's own run. *)
+(* ---- round 5: SILENCE over ALL histories ------------------------------------------------------------------
+   Vocabulary (Model/RegistryTrace.v): iter_states st it = the states after the micro-steps of the
+   iteration (one datagram, one call - one row of the interface table for enable/disable_interface -,
+   one due retransmission, the probing pass over one interface), in order; chg mid i = the name
+   changes of interface i's registry in state mid; rec_of ch s r = r is a record the daemon may say
+   for service s under those names: PTR type/subtype -> current instance name, the meta PTR for its
+   type, SRV (port, current host name) or TXT under the current instance name (letter case aside), an
+   address record of one of its addresses under the current host name.
+
+   EVERY response the daemon model sends, in every history (any tables, datagrams incl. responses,
+   calls incl. enable/disable_interface, jitter, times), is a goodbye (all TTL 0) or consists of
+   records of services that are in the service map when the micro-step that sends it ends, whose key
+   was in the map before the iteration or is registered by one of its calls. *)
+Theorem C09_responses_only_for_registered_services_all_histories : forall ifs os its it i v4 d m,
+  let st := run_state (d_init_os ifs os) its in
+  In (OSend i v4 d m) (snd (fst (fst (iterate st it)))) -> o_resp m = true ->
+  is_goodbye m = true \/
+  forall r, In r (o_an m ++ o_ar m) ->
+  exists mid k s, In mid (iter_states st it) /\ In (k, s) (d_svcs mid) /\ rec_of (chg mid i) s r /\
+                  (In k (keys (d_svcs st)) \/ In k (registered_keys (it_calls it))).
+Proof. exact responses_only_for_registered_services. Qed.
+
+(* AFTER THE UNREGISTER (or for a service that never was registered): as long as the key is not in
+   the map and not registered again, no live record of any response - answer, additional,
+   announcement - is built from a service stored under that key.  Nothing else is excluded: what
+   the daemon still does for the service (probe queries, activation of its names) is in
+   C09_registry_forgets_unregistered_service_refuted. *)
+Theorem C09_no_live_record_of_unregistered_service_all_histories : forall ifs os its it k0 i v4 d m,
+  let st := run_state (d_init_os ifs os) its in
+  aget k0 (d_svcs st) = None -> ~ In k0 (registered_keys (it_calls it)) ->
+  In (OSend i v4 d m) (snd (fst (fst (iterate st it)))) -> o_resp m = true -> is_goodbye m = false ->
+  forall r, In r (o_an m ++ o_ar m) ->
+  exists mid k s, In mid (iter_states st it) /\ In (k, s) (d_svcs mid) /\ rec_of (chg mid i) s r /\ k <> k0.
+Proof. exact no_live_record_of_unregistered. Qed.
+
+(* the keys of the service map at every micro-step of an iteration *)
+Theorem C09_service_keys_during_iteration : forall st it mid k s,
+  In mid (iter_states st it) -> In (k, s) (d_svcs mid) ->
+  In k (keys (d_svcs st)) \/ In k (registered_keys (it_calls it)).
+Proof. exact iter_states_keys. Qed.
+
+(* non-vacuity on the unregister witness: a live response (the announcement at +895 ms) while the
+   service is registered; after the unregister at +2500 ms the map is empty, the iteration of the
+   repeat sends something (the goodbye) but no live response, the PTR question at +3000 ms gets none *)
+Example C09_silence_example :
+  existsb live_resp (outs_of w_unregister_ifs w_unregister_its 4) = true /\
+  length (d_svcs (state_after w_unregister_ifs w_unregister_its 4)) = 1%nat /\
+  d_svcs (state_after w_unregister_ifs w_unregister_its 7) = [] /\
+  existsb live_resp (outs_of w_unregister_ifs w_unregister_its 7) = false /\
+  existsb live_resp (outs_of w_unregister_ifs w_unregister_its 8) = false /\
+  outs_of w_unregister_ifs w_unregister_its 7 <> [].
+Proof. exact w_unregister_live. Qed.
+
+(* Reading: a record "of service s" is identified by what it is built from (rec_of), not by its owner
+   name alone - two services may share a host name or a type, and then the address / type PTR records
+   of the one that stays are also records of the one that left. *)
 
 (* History level, full statement (validated on every generated history by running chk_C09 on the
    model's own observation, NOT proved as a theorem):
@@ -228,4 +277,8 @@ Print Assumptions C09_no_overdue_repeat.
 Print Assumptions C09_queue_growth.
 Print Assumptions C09_queue_example.
 Print Assumptions C09_registry_forgets_unregistered_service_refuted.
+Print Assumptions C09_responses_only_for_registered_services_all_histories.
+Print Assumptions C09_no_live_record_of_unregistered_service_all_histories.
+Print Assumptions C09_service_keys_during_iteration.
+Print Assumptions C09_silence_example.
 Print Assumptions C09_unregister_run.
